@@ -291,6 +291,9 @@ def execute(im, hist):
     handles, report = {}, []
     for k, op in enumerate(hist):
         try:
+            if op[0] == "clear":
+                im.clear()
+                continue
             if op[0] == "parse":
                 _, p, s, label = op
                 t, obs = im.call(p, s)
@@ -361,6 +364,9 @@ def concat_histories(hists):
     between the random histories, so that a failure depends on earlier histories"""
     out, off = [], 0
     for h in hists:
+        if out:
+            out.append(["clear"])   # the harness empties both caches between two histories (what parsing > maxsize other strings does to them)
+            off = len(out)
         for op in h:
             if op[0] == "parse":
                 out.append(["parse", op[1], op[2], op[3] + off])
@@ -371,7 +377,7 @@ def concat_histories(hists):
                 out.append(["edit", op[1] + off, op[2], op[3], op[4], src])
             else:
                 out.append([op[0], op[1] + off] + list(op[2:]))
-        off += len(h)
+        off = len(out)
     return out
 
 
@@ -740,6 +746,7 @@ def run(ctx):
         table_defs.append(f"Definition table_{p} : table := [" + "; ".join(rows) + "].")
     terms, runs, total = [], [], {}
     n_fail_reported, t_shrink = 0, 0.0
+    n_fail_examined, unreproduced, failing = 0, None, []
     for k in range(n_hist + n_long):
         main = "cond" if (k % 10) < (5 if ctx.quick else 3) and k < n_hist else "ahb"
         if k < n_hist:
@@ -750,8 +757,15 @@ def run(ctx):
         runs.append(hr)
         for a, b in hr.stats.items():
             total[a] = max(total.get(a, 0), b) if a == "max_depth" else total.get(a, 0) + b
-        if hr.failures and n_fail_reported < 4:
-            n_fail_reported += 1
+        if hr.failures:
+            failing.append((k, hr))
+    # failures are examined after all histories ran: the long histories first (they reach evictions without any help from the harness)
+    failing.sort(key=lambda x: (0 if x[0] >= n_hist else 1, x[0]))
+    for k, hr in failing:
+        if not (n_fail_reported < 2 and n_fail_examined < 8):
+            break
+        if True:
+            n_fail_examined += 1
             label, p, s, obs, exp, how = hr.failures[0]
             ts = time.time()
             small = shrink(im, hr.jhist[: label + 1], time.time() + (8 if ctx.quick else 20))
@@ -760,10 +774,10 @@ def run(ctx):
             if rep is None:  # (evaluation-only failure: keep the unshrunk prefix)
                 small, rep = hr.jhist[: label + 1], {"expected": exp, "observed": obs}
             # the replay must stand on its own: confirm it in a fresh interpreter, else fall back to longer histories
-            note = f"shrunk from {label + 1} to {len(small)} operations"
+            note, reproduced = f"shrunk from {label + 1} to {len(small)} operations", True
             if not reproduces_in_fresh_process(small):
                 full = hr.jhist[: label + 1]
-                everything = concat_histories([r.jhist for r in runs[:-1]] + [full])
+                everything = concat_histories([r.jhist for r in runs[:k]] + [full])
                 if reproduces_in_fresh_process(full):
                     small = shrink_fresh(full)
                     note = f"the in-process shrinking does not reproduce in a fresh process (state outside the caches survives a cache clear); shrunk from {label + 1} to {len(small)} with a fresh interpreter per test"
@@ -772,10 +786,18 @@ def run(ctx):
                     note = (f"the failure depends on earlier histories (state outside the caches survives): all {len(everything)} operations since the start of the run, "
                             f"shrunk to {len(small)} with a fresh interpreter per test")
                 else:
-                    note += "; NOT reproduced in a fresh process (depends on state this run left behind)"
+                    reproduced = False
+                    note += "; NOT reproduced in a fresh process (depends on state this run left behind, e.g. the cache clears between the histories)"
             key = "history|" + hashlib.sha1(json.dumps(small, ensure_ascii=False).encode()).hexdigest()[:12]
-            ctx.fail(key, {"history": small, "found_in_history": k, "length_before_shrinking": label + 1},
+            entry = (key, {"history": small, "found_in_history": k, "length_before_shrinking": label + 1},
                      show(rep["expected"]), show(rep["observed"]), how + f" (random history {k}, {note})")
+            if reproduced:
+                n_fail_reported += 1
+                ctx.fail(*entry)
+            elif unreproduced is None:
+                unreproduced = entry   # reported only if no failure that stands on its own turns up
+    if n_fail_reported == 0 and unreproduced is not None:
+        ctx.fail(*unreproduced)
     n_failing_hist = sum(1 for r in runs if r.failures)
     n_failing_parses = sum(len(r.failures) for r in runs)
     im.clear()
